@@ -709,7 +709,7 @@ REVIEWED_MEMO = {
 BASE_WRITER = "ufo2ft.featureWriters.baseFeatureWriter.BaseFeatureWriter"
 
 
-def r087(prog, chk):
+def r087(prog, chk, rule="R08.7"):
     """Objects a caller can hand in as instances and reuse (feature writers) keep
     no per-font state outside self.context, which setContext replaces on every
     call; memoising decorators only on reviewed per-compile classes."""
@@ -722,8 +722,8 @@ def r087(prog, chk):
                 n += 1
                 ok = fi.short in REVIEWED_MEMO
                 if ok:
-                    chk.exempt("R08.7", f"{fi.short}|@{nm}", REVIEWED_MEMO[fi.short])
-                chk.ob("R08.7", f"{fi.short}|@{nm}", ok, where(fi), detail=REVIEWED_MEMO.get(fi.short, ""), nontrivial=False,
+                    chk.exempt(rule, f"{fi.short}|@{nm}", REVIEWED_MEMO[fi.short])
+                chk.ob(rule, f"{fi.short}|@{nm}", ok, where(fi), detail=REVIEWED_MEMO.get(fi.short, ""), nontrivial=False,
                        message=f"{fi.short} memoises its result on the object / in the process (@{nm}): the value computed for the first font is served to every "
                                f"later compile that reuses the object (not on the reviewed list of per-compile classes)")
     for ci in ix.subclasses(BASE_WRITER):
@@ -747,7 +747,7 @@ def r087(prog, chk):
                         first = chain[-1]
                         n += 1
                         ok = m.node.name == "__init__" or first == "context"
-                        chk.ob("R08.7", f"{m.short}|{A.keytext(m.node, node)}", ok, where(m, node), detail=f"self.{first} {'set in __init__' if m.node.name == '__init__' else 'is the per-call context'}",
+                        chk.ob(rule, f"{m.short}|{A.keytext(m.node, node)}", ok, where(m, node), detail=f"self.{first} {'set in __init__' if m.node.name == '__init__' else 'is the per-call context'}",
                                message=f"{m.short} stores per-call data on the writer object itself (`{T(node, 60)}`): a writer instance reused for another font "
                                        f"(featureWriters=[Writer()]) starts from the previous font's state")
                 if isinstance(node, ast.Call) and isinstance(node.func, ast.Attribute) and node.func.attr in MUT:
@@ -759,22 +759,22 @@ def r087(prog, chk):
                         root = root.value
                     if isinstance(root, ast.Name) and root.id == "self" and chain and chain[-1] != "context" and m.node.name != "__init__":
                         n += 1
-                        chk.ob("R08.7", f"{m.short}|{A.keytext(m.node, node)}", False, where(m, node),
+                        chk.ob(rule, f"{m.short}|{A.keytext(m.node, node)}", False, where(m, node),
                                message=f"{m.short} mutates `{T(node.func.value)}` on the writer object (not the per-call context): state leaks into the next compile that reuses the writer")
         # the context is a fresh namespace on every call
     sc = ix.get_method(BASE_WRITER, "setContext", own=True)
     st = [(s_, v) for s_, t, v in attr_stores(sc, "context") if T(t.value) == "self"]
     ok = len(st) == 1 and isinstance(st[0][1], ast.Call) and A.callee_name(st[0][1]) == "SimpleNamespace"
-    chk.ob("R08.7", f"{sc.short}|self.context = SimpleNamespace(...) on every call", ok, where(sc), detail="fresh per-call context",
+    chk.ob(rule, f"{sc.short}|self.context = SimpleNamespace(...) on every call", ok, where(sc), detail="fresh per-call context",
            message="BaseFeatureWriter.setContext no longer builds a fresh context namespace per call")
     for ci in ix.subclasses(BASE_WRITER, strict=True):
         m = ci.methods.get("setContext")
         if m is None:
             continue
         sup = [c for c in A.body_nodes(m.node) if isinstance(c, ast.Call) and isinstance(c.func, ast.Attribute) and c.func.attr == "setContext" and "super()" in T(c.func.value)]
-        chk.ob("R08.7", f"{m.short}|chains to super().setContext", len(sup) == 1, where(m), detail="context created by the base class",
+        chk.ob(rule, f"{m.short}|chains to super().setContext", len(sup) == 1, where(m), detail="context created by the base class",
                message=f"{m.short} does not obtain its context from BaseFeatureWriter.setContext")
-    chk.minimum("R08.7", 10)
+    chk.minimum(rule, 10)
 
 
 MUTANTS = [
